@@ -26,6 +26,7 @@ type c12Case struct {
 	Edit   string   `json:"edit"` // "none" | "fill-block" | "fill-line" | "fill-newline" | "reverse" | "drop-first" | "dup-last"
 	Extras bool     `json:"extras"`
 	Shared bool     `json:"shared"` // FileSet already holds another file
+	Reuse  bool     `json:"reuse"`  // one FileRestorer restores all files of the sequence
 }
 
 var c12Edits = []string{"none", "fill-block", "fill-line", "fill-newline", "reverse", "drop-first", "dup-last"}
@@ -37,7 +38,7 @@ func init() {
 		ID:    "C12",
 		Level: "model_checking",
 		Rule: "trees obtained by parsing every canonical corpus variant (<=1 gap insertion; thorough <=2), by filling every decoration point (block comments / line comments / newlines) and by editing every list (reverse, drop first, duplicate last via Clone), " +
-			"restored with Extras off and on, alone, into a populated FileSet, and as every ordered sequence of <=3 (quick: pairs + selected triples) corpus files restored by one Restorer into one FileSet; " +
+			"restored with Extras off and on, alone, into a populated FileSet, and as every ordered sequence of <=3 (quick: pairs + selected triples) corpus files restored by one Restorer (fresh FileRestorer per file, and one FileRestorer reused for all) into one FileSet, all files re-examined after the last restore; " +
 			"oracle by reflection: every assigned Pos inside the one registered file, files disjoint, line table strictly increasing, comments sorted, order of all positions consistent with a fresh parse of the printed text, format.Node repeatable; " +
 			"state = (sources, edit, extras, shared); non-trivial = tree with comments or edits",
 		Assumptions: []string{"a fresh go/parser parse of the printed text is the reference for relative order"},
@@ -67,10 +68,12 @@ func runC12(ctx *core.Ctx, unit int) {
 		pool := []string{"comments", "multistr", "ranges"}
 		for _, b := range ts {
 			for _, extras := range []bool{false, true} {
-				cs := c12Case{Srcs: []string{a.Src, b.Src}, Edit: "none", Extras: extras}
-				ctx.State(fmt.Sprintf("seq|%s|%s|%v", a.Name, b.Name, extras), true)
-				ctx.Eval(cs, c12Check(cs))
-				ctx.R.Transitions++
+				for _, reuse := range []bool{false, true} {
+					cs := c12Case{Srcs: []string{a.Src, b.Src}, Edit: "none", Extras: extras, Reuse: reuse}
+					ctx.State(fmt.Sprintf("seq|%s|%s|%v|%v", a.Name, b.Name, extras, reuse), true)
+					ctx.Eval(cs, c12Check(cs))
+					ctx.R.Transitions++
+				}
 			}
 			third := pool
 			if ctx.Thorough() {
@@ -81,7 +84,7 @@ func runC12(ctx *core.Ctx, unit int) {
 			}
 			for _, cn := range third {
 				c, _ := gen.Find(ts, cn)
-				cs := c12Case{Srcs: []string{a.Src, b.Src, c.Src}, Edit: "none", Extras: true}
+				cs := c12Case{Srcs: []string{a.Src, b.Src, c.Src}, Edit: "none", Extras: true, Reuse: len(cn)%2 == 0}
 				ctx.State(fmt.Sprintf("seq|%s|%s|%s", a.Name, b.Name, cn), true)
 				ctx.Eval(cs, c12Check(cs))
 				ctx.R.Transitions++
@@ -324,7 +327,7 @@ func lockstep(a, b reflect.Value, path string, pairs *[]posPair) bool {
 func c12Check(cs c12Case) core.Outcome {
 	fail := func(key, f string, a ...interface{}) core.Outcome {
 		src := cs.Srcs[len(cs.Srcs)-1]
-		return core.Outcome{Key: key, Desc: fmt.Sprintf("edit=%s extras=%v shared=%v files=%d\n", cs.Edit, cs.Extras, cs.Shared, len(cs.Srcs)) + fmt.Sprintf(f, a...) + "\nlast input:\n" + src}
+		return core.Outcome{Key: key, Desc: fmt.Sprintf("edit=%s extras=%v shared=%v reuse-filerestorer=%v files=%d\n", cs.Edit, cs.Extras, cs.Shared, cs.Reuse, len(cs.Srcs)) + fmt.Sprintf(f, a...) + "\nlast input:\n" + src}
 	}
 	// comment-versus-token order is compared only for unedited parsed trees: there the printed text is
 	// the canonical input itself; in edited or hand-decorated trees go/printer may legitimately emit a
@@ -344,6 +347,7 @@ func c12Check(cs c12Case) core.Outcome {
 		tf   *token.File
 	}
 	var files []restored
+	var fileRestorer *decorator.FileRestorer
 	for i, src := range cs.Srcs {
 		df, err := decorator.Parse(src)
 		if err != nil {
@@ -352,7 +356,17 @@ func c12Check(cs c12Case) core.Outcome {
 		c12ApplyEdit(df, cs.Edit)
 		base := res.Fset.Base()
 		var af *ast.File
-		if p := guard(func() { af, err = res.RestoreFile(df) }); p != "" {
+		if cs.Reuse && fileRestorer == nil {
+			fileRestorer = res.FileRestorer()
+		}
+		if p := guard(func() {
+			if cs.Reuse {
+				fileRestorer.Name = fmt.Sprintf("f%d.go", i)
+				af, err = fileRestorer.RestoreFile(df)
+			} else {
+				af, err = res.RestoreFile(df)
+			}
+		}); p != "" {
 			return fail("restore-panic:"+short(p, 60), "RestoreFile panicked on file %d: %s", i, p)
 		}
 		if err != nil {
